@@ -455,4 +455,14 @@ pub fn gen_c15(g: &mut Gen, tier: &str) {
     for (d, nn, o) in [(DAY_MAX as i128, 23 * 3600 * NPS, -3600i128), (DAY_MIN as i128, 0, 3600)] {
         for f in 0..10i128 { for x in [0i128, 1, 12, 23, 28, 59, 999] { g.push(true, Input::new("dt_set", vec![f, d, nn, o, x])); } }
     }
+    // the first and the last representable seconds with an offset pointing outward (also offsets that are no whole number of
+    // minutes): an in-range field value may push the instant out of the range - an OutOfRange error, never a panic
+    for o in [1i128, 20, 59, 61, 1_800, 3_599, 3_661, 86_399] {
+        for (d, nn, off) in [(DAY_MAX as i128, NPD - (o / 2 + 1).min(86_399) * NPS, -o), (DAY_MAX as i128, NPD - 1, -o),
+                             (DAY_MIN as i128, (o / 2).min(86_399) * NPS, o), (DAY_MIN as i128, 0, o)] {
+            for f in 4..10i128 { for x in [0i128, 1, 19, 20, 29, 30, 39, 40, 58, 59, 60, 999, 999_999, 999_999_999] {
+                g.push(true, Input::new("dt_set", vec![f, d, nn, off, x]));
+            } }
+        }
+    }
 }
